@@ -63,12 +63,15 @@ const (
 	dBranch decKind = iota
 	dChoose
 	dQuery
+	dMergeFail
+	dMergeOK
 )
 
 type decision struct {
 	kind   decKind
 	chosen int
 	alts   []int // remaining unexplored feasible alternatives
+	dbg    string
 }
 
 type inputRec struct {
@@ -132,6 +135,8 @@ type Interp struct {
 	mergeGuard  *Term // non-nil while if-converting
 	mergeBudget int
 	mergeInstrs int
+	undefN      int
+	evlog       []string
 	noMerge     bool
 
 	cfg          *Kernel
@@ -150,10 +155,10 @@ type Interp struct {
 	stubs          map[string]*ssa.Function
 	intrinsicCache map[*ssa.Function]intrinsicFn
 
-	sched   *scheduler
+	sched     *scheduler
 	callStack []*ssa.Function
-	params  map[string]int
-	errType types.Type
+	params    map[string]int
+	errType   types.Type
 }
 
 type frame struct {
@@ -245,10 +250,22 @@ func (in *Interp) query(extra ...*Term) SatResult {
 }
 
 // branch decides a symbolic condition, forking when both sides are feasible.
+func (in *Interp) ev(f string, a ...interface{}) {
+	if debugEvents {
+		in.evlog = append(in.evlog, fmt.Sprintf(f, a...))
+		if len(in.evlog) > 60 {
+			in.evlog = in.evlog[len(in.evlog)-60:]
+		}
+	}
+}
+
+var debugEvents = os.Getenv("GOSYM_DEBUG_EVENTS") != ""
+
 func (in *Interp) branch(c *Term) bool {
 	if c.IsConst() {
 		return c.BoolVal()
 	}
+	in.ev("branch pos=%d len=%d guard=%v", in.pos, len(in.dec), in.mergeGuard != nil)
 	if in.mergeGuard != nil {
 		panic(mergeAbort{"branch inside merge", false})
 	}
@@ -262,7 +279,15 @@ func (in *Interp) branch(c *Term) bool {
 	if in.pos < len(in.dec) {
 		d := in.dec[in.pos]
 		if d.kind != dBranch {
-			in.endPath(EndInternal, "decision log mismatch (branch)")
+			ks := ""
+			for i, x := range in.dec {
+				ks += string("BCQMS"[x.kind])
+				if i >= in.pos-4 && i <= in.pos+2 {
+					ks += "{" + x.dbg + "}"
+				}
+			}
+			ks += " NOW cond=" + c.String()
+			in.endPath(EndInternal, fmt.Sprintf("decision log mismatch (branch): found kind %d at pos %d/%d\n%s\nlog=%s\nevents:\n%s", d.kind, in.pos, len(in.dec), in.targetStack(), ks, strings.Join(in.evlog, "\n")))
 		}
 		in.pos++
 		if d.chosen == 1 {
@@ -293,6 +318,9 @@ func (in *Interp) branch(c *Term) bool {
 			d.alts = []int{0}
 			in.stats.Forks++
 		}
+	}
+	if debugEvents {
+		d.dbg = fmt.Sprintf("branch %s in %s", c.String(), in.callStack[len(in.callStack)-1].Name())
 	}
 	in.dec = append(in.dec, d)
 	in.pos++
